@@ -52,6 +52,9 @@ type opJ struct {
 	// connection drops before any answer), "partial" (after the first answer), "fail" (the RECONCILE
 	// call itself fails) - and the core re-subscribes by itself
 	Lost string `json:"lost,omitempty"`
+	// reconnect, crash: optional fields the reconciliation answers lack (bits: 1 executor_id,
+	// 2 agent_id, 4 source) - master-generated statuses need not carry them
+	Omit int `json:"omit,omitempty"`
 }
 
 type inputJ struct {
@@ -474,6 +477,7 @@ func (r *runner) inRoster(id string) bool {
 
 func (r *runner) apply(i int, op opJ) error {
 	bg := context.Background()
+	simcore.SetReconcileOmit(simcore.AnswerOmit{Executor: op.Omit&1 != 0, Agent: op.Omit&2 != 0, Source: op.Omit&4 != 0})
 	switch op.Op {
 	case "create":
 		e := r.nextEnv
@@ -891,6 +895,9 @@ func opTerm(o opJ, keepEff bool) string {
 		if o.Lost != "" {
 			return "OReconnectLost"
 		}
+		if o.Omit != 0 {
+			return fmt.Sprintf("OReconnectOmit %d", o.Omit)
+		}
 		return "OReconnect"
 	case "crash":
 		p := map[string]string{"": "PIdle", "idle": "PIdle", "before": "PBeforeLaunch", "after": "PAfterLaunch", "midcfg": "PMidConfigure"}[o.P]
@@ -954,6 +961,14 @@ func corpus() []inputJ {
 	crl := func(p string, k int, lost string) opJ { return opJ{Op: "crash", P: p, K: k, Lost: lost} }
 	return []inputJ{
 		c(mk(1), op("reconnect")), // C18-a regression witness: the task must survive
+		// reconciliation answers that lack optional fields must leave an owned task owned - also for the
+		// Cleanup (explicit, or at the start of the next CreateEnvironment) that follows:
+		c(mk(2), opJ{Op: "reconnect", Omit: 1}, op("cleanup")),                                            // no executor_id
+		c(mk(1), opJ{Op: "start", E: 0}, opJ{Op: "reconnect", Omit: 2}, mk(1)),                            // no agent_id, then a new environment
+		c(mk(2), opJ{Op: "reconnect", Omit: 7}, op("reconnect"), op("cleanup"), opJ{Op: "destroy", E: 0}), // bare answers, another reconnection
+		c(hold(1, 1), opJ{Op: "reconnect", Omit: 1}, run(0), op("cleanup")),                               // the bare RUNNING answer activates a held task
+		c(mk(2), opJ{Op: "lost", T: 0}, opJ{Op: "reconnect", Omit: 3}, op("cleanup")),
+		c(mk(2), opJ{Op: "crash", P: "idle", Omit: 3}), // leftovers reported without agent / executor id are killed all the same
 		// the reconciliation of a (re)subscription is lost and must be repeated by the next one:
 		c(mk(2), crl("idle", 0, "drop")),                         // restart, connection drops before any answer
 		c(mk(2), opJ{Op: "start", E: 0}, crl("idle", 0, "fail")), // restart, the RECONCILE call itself fails
@@ -1038,7 +1053,11 @@ func genScript(r *gen.Rand) inputJ {
 			crashed := false
 			switch y := r.Intn(10); {
 			case y < 6:
-				in.Ops = append(in.Ops, op("reconnect"))
+				o := op("reconnect")
+				if r.Chance(1, 3) {
+					o.Omit = []int{1, 2, 3}[r.Intn(3)]
+				}
+				in.Ops = append(in.Ops, o)
 			case y < 8:
 				in.Ops = append(in.Ops, opJ{Op: "crash", P: "idle"})
 				crashed = true
@@ -1094,8 +1113,14 @@ func genScript(r *gen.Rand) inputJ {
 			o := op("reconnect")
 			if r.Chance(1, 6) {
 				o.Lost = r.Pick([]string{"drop", "partial", "fail"})
+			} else if r.Chance(1, 3) {
+				// answers without executor_id / agent_id / source, mostly followed by a Cleanup
+				o.Omit = []int{1, 2, 3, 5, 7, 4}[r.Intn(6)]
 			}
 			in.Ops = append(in.Ops, o)
+			if o.Omit != 0 && r.Chance(2, 3) {
+				in.Ops = append(in.Ops, op("cleanup"))
+			}
 		default:
 			p := r.Pick([]string{"idle", "idle", "before", "after", "midcfg"})
 			k := 0
@@ -1109,6 +1134,8 @@ func genScript(r *gen.Rand) inputJ {
 			o := opJ{Op: "crash", P: p, K: k}
 			if r.Chance(1, 3) {
 				o.Lost = r.Pick([]string{"drop", "partial", "fail"})
+			} else if r.Chance(1, 4) {
+				o.Omit = []int{1, 2, 3, 7}[r.Intn(4)]
 			}
 			in.Ops = append(in.Ops, o)
 		}
